@@ -13,5 +13,25 @@ Theorem C12_deleted_refused_partial : forall d id k v vt mvt ks,
   ks_of d id = Some ks -> k_deleted ks = true -> write_one d id k v vt mvt = (d, ObErr E_DELETED).
 Proof. exact write_deleted_refused. Qed.
 
+(* the id counter after recovery is above every directory id and every keyspace id in any journal record (sealed or
+   active, items and clears), for ANY disk image; a keyspace created under a new name takes exactly that value and
+   starts with an empty tree: no record of a deleted keyspace can ever be replayed into a later keyspace *)
+Theorem C12_recovered_ids_fresh_partial : forall cfg mode filters active sealed meta dirs pn ms,
+  d_id_reuse cfg = false ->
+  let d := recover cfg mode filters active sealed meta dirs pn ms in
+  (forall p, In p dirs -> fst p < d_next_id d) /\
+  (forall b it, In b (concat sealed ++ active) -> In it (rb_items b) -> ri_ks it < d_next_id d) /\
+  (forall b id, In b (concat sealed ++ active) -> In id (rb_clears b) -> id < d_next_id d).
+Proof. exact recover_next_id_above. Qed.
+
+Theorem C12_new_keyspace_takes_next_id_partial : forall d h name,
+  blookup name (d_map d) = None ->
+  let d' := fst (do_ks d h name) in
+  d_next_id d' = d_next_id d + 1 /\
+  exists ks, In ks (d_kss d') /\ k_id ks = d_next_id d /\ k_name ks = name /\ k_tree ks = tree_init.
+Proof. exact new_keyspace_takes_next_id. Qed.
+
 Print Assumptions C12_frame_partial.
 Print Assumptions C12_deleted_refused_partial.
+Print Assumptions C12_recovered_ids_fresh_partial.
+Print Assumptions C12_new_keyspace_takes_next_id_partial.
